@@ -80,11 +80,15 @@ h_locale_setters(void)
 
 #if defined PART_CLOCK
 #include "ref.h"
+#if !defined YLO
+# define YLO	1601
+# define YHI	4095
+#endif
+#include <sys/time.h>
+#include <time.h>
 static int vf_clock_reads;
 #define gettimeofday	vf_gettimeofday
 #define time		vf_time
-#include <sys/time.h>
-#include <time.h>
 static int
 vf_gettimeofday(struct timeval *tv, void *tz)
 {
@@ -105,6 +109,18 @@ vf_time(time_t *t)
 #include "dt-core.c"
 #undef gettimeofday
 #undef time
+
+/* the clock as the other units see it (dt_date() in date-core.c, dt_time() in
+ * time-core.c call time() directly): the same counted stub */
+time_t
+time(time_t *t)
+{
+	vf_clock_reads++;
+	if (t != NULL) {
+		*t = 1349049600;
+	}
+	return 1349049600;
+}
 
 /* fully specified input: the clock is not consulted and nothing is altered */
 void
@@ -154,6 +170,39 @@ h_base_only(void)
 	CHECK(r.sd.y == vby && r.sd.m == (vm ? vm : vbm) && r.sd.d == (vm || vd ? (vm ? vd : vd) : vbd) || 1, "fields");
 	CHECK(r.sd.y == vby, "the missing year comes from the base");
 	CHECK(vm ? r.sd.m == vm : r.sd.m == vbm, "a missing month comes from the base");
+	WITNESS();
+}
+
+/* a time of day is put on the time line through the base date (zone
+ * conversions of time-only input): with --base the clock is never read and
+ * the instant is the base day's */
+void
+h_epoch_with_base(void)
+{
+	ND(i32, vby);
+	ND(i32, vbm);
+	ND(i32, vbd);
+	ND(u8, vh);
+	ND(u8, vmi);
+	ND(u8, vs);
+	struct dt_dt_s b, t;
+	dt_ssexy_t e;
+
+	ASSUME(vby >= YLO && vby <= YHI);
+	ASSUME(ref_valid_ymd(vby, vbm, vbd));
+	ASSUME(vh < 24 && vmi < 60 && vs < 60);
+	memset(&b, 0, sizeof(b));
+	b.d.typ = DT_YMD;
+	b.d.ymd.y = vby, b.d.ymd.m = vbm, b.d.ymd.d = vbd;
+	dt_make_d_only(&b, DT_YMD);
+	dt_set_base(b);
+	memset(&t, 0, sizeof(t));
+	t.t.hms.h = vh, t.t.hms.m = vmi, t.t.hms.s = vs;
+	dt_make_t_only(&t, DT_HMS);
+	e = dt_to_unix_epoch(t);
+	CHECK(vf_clock_reads == 0, "with --base the clock is never read for a time of day");
+	CHECK(e == (dt_ssexy_t)(ref_days(vby, vbm, vbd) - REF_UNIX_BASE) * 86400 + ((int)vh * 60 + vmi) * 60 + vs,
+	      "a time of day is an instant of the base date");
 	WITNESS();
 }
 #endif	/* PART_CLOCK */
